@@ -528,6 +528,143 @@ pub mod c12 {
     }
 }
 
+/// C08 / C09: the entry-level replication merge (`Entry::is_add_conflict`,
+/// `Entry::resolve_add_conflict`, `Entry::merge_state`, `ReplIncrementalEntryV1::new`) on
+/// entries built from plain data, exactly as `consumer_incremental_apply_entries` chains them.
+pub mod c08 {
+    use super::*;
+    use crate::be::dbentry::{DbEntry, DbEntryVers};
+    use crate::be::dbrepl::DbEntryChangeState;
+    use crate::be::dbvalue::DbCidV1;
+    use crate::entry::EntryIncrementalNew;
+    use crate::repl::entry::State;
+    use crate::repl::proto::{ReplCidRange, ReplIncrementalEntryV1};
+    use crate::schema::{SchemaReadTransaction, SchemaTransaction};
+    use crate::valueset::ValueSet;
+
+    /// An entry as plain data. `cells`: attribute ↦ (change cid, value if present);
+    /// `extra`: attributes without a change cid (never sent by replication).
+    #[derive(Clone, Debug)]
+    pub struct Spec {
+        pub uuid: Uuid,
+        pub live: bool,
+        pub at: Cid,
+        pub cells: BTreeMap<Attribute, (Cid, Option<ValueSet>)>,
+        pub extra: BTreeMap<Attribute, ValueSet>,
+    }
+
+    fn dbcid(c: &Cid) -> DbCidV1 {
+        DbCidV1 { server_id: c.s_uuid, timestamp: c.ts }
+    }
+
+    /// The committed database form of `spec` (`Entry::from_dbentry`).
+    pub fn db_entry(spec: &Spec, id: u64) -> Option<EntrySealedCommitted> {
+        let changestate = if spec.live {
+            DbEntryChangeState::V1Live {
+                at: dbcid(&spec.at),
+                changes: spec.cells.iter().map(|(a, (c, _))| (a.clone(), dbcid(c))).collect(),
+            }
+        } else {
+            DbEntryChangeState::V1Tombstone { at: dbcid(&spec.at) }
+        };
+        let mut attrs: BTreeMap<Attribute, crate::be::dbvalue::DbValueSetV2> = BTreeMap::new();
+        for (a, (_, v)) in spec.cells.iter() {
+            if let Some(vs) = v {
+                attrs.insert(a.clone(), vs.to_db_valueset_v2());
+            }
+        }
+        for (a, vs) in spec.extra.iter() {
+            attrs.insert(a.clone(), vs.to_db_valueset_v2());
+        }
+        EntrySealedCommitted::from_dbentry(DbEntry { ent: DbEntryVers::V3 { changestate, attrs } }, id)
+    }
+
+    /// Plain-data view of a committed entry.
+    pub fn dump(e: &EntrySealedCommitted) -> Spec {
+        let attrs = e.get_ava();
+        match e.get_changestate().current() {
+            State::Live { at, changes } => Spec {
+                uuid: e.get_uuid(),
+                live: true,
+                at: at.clone(),
+                cells: changes.iter().map(|(a, c)| (a.clone(), (c.clone(), attrs.get(a).cloned()))).collect(),
+                extra: attrs.iter().filter(|(a, _)| !changes.contains_key(*a)).map(|(a, v)| (a.clone(), v.clone())).collect(),
+            },
+            State::Tombstone { at } => Spec {
+                uuid: e.get_uuid(),
+                live: false,
+                at: at.clone(),
+                cells: BTreeMap::new(),
+                extra: attrs.iter().map(|(a, v)| (a.clone(), v.clone())).collect(),
+            },
+        }
+    }
+
+    /// What a supplier puts on the wire for `e` and what the consumer rehydrates from it:
+    /// `ReplIncrementalEntryV1::new(e, schema, ranges)` → serde_json → `EntryIncrementalNew::rehydrate`.
+    /// `ranges`: server uuid ↦ (ts_min, ts_max). Also returns the wire JSON.
+    pub fn incoming(
+        e: &EntrySealedCommitted,
+        schema: &SchemaReadTransaction,
+        ranges: &BTreeMap<Uuid, (Duration, Duration)>,
+    ) -> Result<(EntryIncrementalNew, String), String> {
+        let ctx: BTreeMap<Uuid, ReplCidRange> = ranges
+            .iter()
+            .map(|(u, (a, b))| (*u, ReplCidRange { ts_min: *a, ts_max: *b }))
+            .collect();
+        let r = ReplIncrementalEntryV1::new(e, schema, &ctx);
+        let s = serde_json::to_string(&r).map_err(|e| format!("serde: {e}"))?;
+        let back: ReplIncrementalEntryV1 = serde_json::from_str(&s).map_err(|e| format!("serde: {e}"))?;
+        let inc = EntryIncrementalNew::rehydrate(back).map_err(|e| format!("rehydrate: {e:?}"))?;
+        Ok((inc, s))
+    }
+
+    pub fn is_add_conflict(inc: &EntryIncrementalNew, db: &EntrySealedCommitted) -> bool {
+        inc.is_add_conflict(db)
+    }
+
+    /// `resolve_add_conflict` followed by `validate_repl(schema).seal(schema)` on the survivor, as the
+    /// consumer does. Returns (conflict copy to create here, if any; entry written for the uuid).
+    pub fn resolve_add_conflict(
+        inc: &EntryIncrementalNew,
+        txn_cid: &Cid,
+        db: &EntrySealedCommitted,
+        schema: &dyn SchemaTransaction,
+    ) -> (Option<Spec>, EntrySealedCommitted) {
+        let (copy, ent) = inc.resolve_add_conflict(txn_cid, db);
+        let copy = copy.map(|c| {
+            let attrs = c.get_ava();
+            match c.get_changestate().current() {
+                State::Live { at, changes } => Spec {
+                    uuid: c.get_uuid(),
+                    live: true,
+                    at: at.clone(),
+                    cells: changes.iter().map(|(a, ci)| (a.clone(), (ci.clone(), attrs.get(a).cloned()))).collect(),
+                    extra: attrs.iter().filter(|(a, _)| !changes.contains_key(*a)).map(|(a, v)| (a.clone(), v.clone())).collect(),
+                },
+                State::Tombstone { at } => Spec {
+                    uuid: c.get_uuid(),
+                    live: false,
+                    at: at.clone(),
+                    cells: BTreeMap::new(),
+                    extra: attrs.iter().map(|(a, v)| (a.clone(), v.clone())).collect(),
+                },
+            }
+        });
+        (copy, ent.validate_repl(schema).seal(schema))
+    }
+
+    /// `merge_state` followed by `validate_repl(schema).seal(schema)`, as the consumer does.
+    pub fn merge_state(
+        inc: &EntryIncrementalNew,
+        db: &EntrySealedCommitted,
+        schema: &dyn SchemaTransaction,
+        trim_cid: &Cid,
+    ) -> EntrySealedCommitted {
+        inc.merge_state(db, schema, trim_cid).validate_repl(schema).seal(schema)
+    }
+}
+
 /// C20: the pre-operation plugin runners (Base first), callable without the access check
 /// that precedes them in `create` / `modify` / `batch_modify`.
 pub mod c20 {
@@ -670,6 +807,19 @@ pub mod c41 {
     }
 }
 
+/// C04/C06: what a read transaction derived from the committed `cid_max` cell when it began
+/// (`QueryServerReadTransaction::trim_cid`, crate-private getter). Add-only.
+pub mod c04 {
+    use crate::prelude::*;
+    use std::time::Duration;
+
+    /// `(ts, s_uuid)` of the read transaction's `trim_cid` (= `cid_max - CHANGELOG_MAX_AGE`).
+    pub fn read_trim_cid(qs: &QueryServerReadTransaction<'_>) -> (Duration, Uuid) {
+        let c = qs.trim_cid();
+        (c.ts, c.s_uuid)
+    }
+}
+
 /// C34: the loaded key object of an entry (`server::keys` is crate-private): its sign / encipher /
 /// verify / decipher / hkdf entry points flattened to strings and bytes, the write transaction's
 /// cid and trim cid, and two pure helpers (public DER of a private DER, HKDF-expand of a PRK) the
@@ -798,5 +948,218 @@ pub mod c34 {
                 .map_err(|e| format!("{e:?}")),
             other => Err(format!("no public form for {other}")),
         }
+    }
+}
+
+/// C05: crash injection at the N-th storage call of a backend write transaction, and a raw dump of
+/// every table of a database file. `point` is called from `be/idl_sqlite.rs` (feature-gated call
+/// sites: before/after `BEGIN EXCLUSIVE`, every `get_conn()` of the write transaction,
+/// before/after `COMMIT`). Unarmed (the default) it does nothing. Add-only.
+pub mod c05 {
+    use std::sync::atomic::{AtomicBool, AtomicU64, Ordering};
+    use std::sync::Mutex;
+
+    pub const BEGIN_PRE: u32 = 1;
+    pub const BEGIN_POST: u32 = 2;
+    pub const STMT: u32 = 3;
+    pub const COMMIT_PRE: u32 = 4;
+    pub const COMMIT_POST: u32 = 5;
+
+    static ARMED: AtomicBool = AtomicBool::new(false);
+    static COUNT: AtomicU64 = AtomicU64::new(0);
+    static ABORT_AT: AtomicU64 = AtomicU64::new(0);
+    static TRACE: Mutex<Vec<(u32, u32)>> = Mutex::new(Vec::new());
+
+    /// Start counting storage calls from 0; the process aborts when the count reaches `abort_at`
+    /// (0 = never). Every point is recorded as (kind, source line of the caller).
+    pub fn arm(abort_at: u64) {
+        COUNT.store(0, Ordering::SeqCst);
+        ABORT_AT.store(abort_at, Ordering::SeqCst);
+        if let Ok(mut t) = TRACE.lock() {
+            t.clear();
+        }
+        ARMED.store(true, Ordering::SeqCst);
+    }
+
+    /// Stop counting; returns the recorded points.
+    pub fn disarm() -> Vec<(u32, u32)> {
+        ARMED.store(false, Ordering::SeqCst);
+        TRACE.lock().map(|mut t| std::mem::take(&mut *t)).unwrap_or_default()
+    }
+
+    pub fn point(kind: u32, line: u32) {
+        if !ARMED.load(Ordering::SeqCst) {
+            return;
+        }
+        let n = COUNT.fetch_add(1, Ordering::SeqCst) + 1;
+        if n == ABORT_AT.load(Ordering::SeqCst) {
+            // The process dies here: no destructor, no ROLLBACK, no cache publication runs.
+            std::process::abort();
+        }
+        if let Ok(mut t) = TRACE.lock() {
+            t.push((kind, line));
+        }
+    }
+
+    /// Every table of the SQLite file at `path` through a connection of its own:
+    /// (table name, creation sql, rows rendered column by column), tables and rows sorted.
+    #[allow(clippy::type_complexity)]
+    pub fn raw_dump(path: &std::path::Path) -> Result<Vec<(String, String, Vec<String>)>, String> {
+        use rusqlite::types::ValueRef;
+        let conn = rusqlite::Connection::open(path).map_err(|e| format!("{e:?}"))?;
+        let mut tables: Vec<(String, String)> = {
+            let mut st = conn
+                .prepare("SELECT name, sql FROM sqlite_master WHERE type = 'table'")
+                .map_err(|e| format!("{e:?}"))?;
+            let rows = st
+                .query_map([], |r| Ok((r.get::<_, String>(0)?, r.get::<_, Option<String>>(1)?.unwrap_or_default())))
+                .map_err(|e| format!("{e:?}"))?;
+            rows.collect::<Result<Vec<_>, _>>().map_err(|e| format!("{e:?}"))?
+        };
+        tables.sort();
+        let mut out = Vec::with_capacity(tables.len());
+        for (name, sql) in tables {
+            let mut st = conn
+                .prepare(&format!("SELECT * FROM \"{name}\""))
+                .map_err(|e| format!("{e:?}"))?;
+            let ncol = st.column_count();
+            let mut rows = st.query([]).map_err(|e| format!("{e:?}"))?;
+            let mut rendered = Vec::new();
+            while let Some(r) = rows.next().map_err(|e| format!("{e:?}"))? {
+                let mut line = String::new();
+                for i in 0..ncol {
+                    if i > 0 {
+                        line.push('|');
+                    }
+                    match r.get_ref(i).map_err(|e| format!("{e:?}"))? {
+                        ValueRef::Null => line.push_str("NULL"),
+                        ValueRef::Integer(v) => line.push_str(&v.to_string()),
+                        ValueRef::Real(v) => line.push_str(&v.to_string()),
+                        ValueRef::Text(t) => line.push_str(&String::from_utf8_lossy(t)),
+                        ValueRef::Blob(b) => line.push_str(&String::from_utf8_lossy(b)),
+                    }
+                }
+                rendered.push(line);
+            }
+            rendered.sort();
+            out.push((name, sql, rendered));
+        }
+        Ok(out)
+    }
+}
+
+/// C13: backup / restore. The in-memory replication update vector of a `Backend` (its trait lives
+/// in the crate-private `repl::ruv`), the backend / index / RUV consistency checks of a backend
+/// transaction and the server-level `verify` of a read transaction (crate-private), and every
+/// table of a database file as raw cells. Add-only.
+pub mod c13 {
+    use crate::be::{Backend, BackendTransaction};
+    use crate::prelude::*;
+    use crate::repl::ruv::ReplicationUpdateVectorTransaction;
+    use std::time::Duration;
+
+    /// `(data: cid -> ids, ranged: server -> timestamps)` of the committed in-memory RUV.
+    #[allow(clippy::type_complexity)]
+    pub fn mem_ruv(
+        be: &Backend,
+    ) -> Result<(Vec<((Duration, Uuid), Vec<u64>)>, Vec<(Uuid, Vec<Duration>)>), OperationError> {
+        let mut txn = be.read()?;
+        let ruv = txn.get_ruv();
+        let data = ruv
+            .ruv_snapshot()
+            .iter()
+            .map(|(c, idl)| ((c.ts, c.s_uuid), idl.into_iter().collect()))
+            .collect();
+        let ranged = ruv
+            .range_snapshot()
+            .iter()
+            .map(|(u, r)| (*u, r.iter().copied().collect()))
+            .collect();
+        Ok((data, ranged))
+    }
+
+    /// `verify()` (SQLite integrity), `verify_indexes()`, `verify_ruv()` of a read transaction.
+    pub fn be_verify(be: &Backend) -> Result<Vec<String>, OperationError> {
+        let mut txn = be.read()?;
+        let mut out: Vec<String> = Vec::new();
+        for r in txn.verify() {
+            if let Err(e) = r {
+                out.push(format!("be:{e:?}"));
+            }
+        }
+        for r in txn.verify_indexes() {
+            if let Err(e) = r {
+                out.push(format!("idx:{e:?}"));
+            }
+        }
+        let mut rr = Vec::new();
+        txn.verify_ruv(&mut rr);
+        for r in rr {
+            if let Err(e) = r {
+                out.push(format!("ruv:{e:?}"));
+            }
+        }
+        Ok(out)
+    }
+
+    /// `QueryServerReadTransaction::verify` (backend, schema, indexes, entries, plugins) without
+    /// the write transaction `QueryServer::verify` opens at the wall clock.
+    pub fn qs_verify(qs: &mut QueryServerReadTransaction<'_>) -> Vec<String> {
+        qs.verify()
+            .into_iter()
+            .filter_map(|r| r.err().map(|e| format!("{e:?}")))
+            .collect()
+    }
+
+    /// The cached `id2entry` maximum id a write transaction of this backend would allocate from.
+    pub fn cached_max_id(be: &Backend) -> Result<u64, OperationError> {
+        let mut txn = be.write()?;
+        txn.get_idlayer().get_id2entry_max_id()
+    }
+
+    /// Every table of the SQLite file at `path` through a connection of its own, in the order
+    /// SQLite returns them: (table, rows of cells; integers in decimal, text / blob as UTF-8).
+    #[allow(clippy::type_complexity)]
+    pub fn raw_tables(path: &std::path::Path) -> Result<Vec<(String, Vec<Vec<String>>)>, String> {
+        use rusqlite::types::ValueRef;
+        let conn = rusqlite::Connection::open_with_flags(
+            path,
+            rusqlite::OpenFlags::SQLITE_OPEN_READ_ONLY,
+        )
+        .map_err(|e| format!("{e:?}"))?;
+        let names: Vec<String> = {
+            let mut st = conn
+                .prepare("SELECT name FROM sqlite_master WHERE type = 'table' ORDER BY name")
+                .map_err(|e| format!("{e:?}"))?;
+            let rows = st
+                .query_map([], |r| r.get::<_, String>(0))
+                .map_err(|e| format!("{e:?}"))?;
+            rows.collect::<Result<Vec<_>, _>>()
+                .map_err(|e| format!("{e:?}"))?
+        };
+        let mut out = Vec::with_capacity(names.len());
+        for name in names {
+            let mut st = conn
+                .prepare(&format!("SELECT * FROM \"{name}\""))
+                .map_err(|e| format!("{e:?}"))?;
+            let ncol = st.column_count();
+            let mut rows = st.query([]).map_err(|e| format!("{e:?}"))?;
+            let mut table = Vec::new();
+            while let Some(r) = rows.next().map_err(|e| format!("{e:?}"))? {
+                let mut cells = Vec::with_capacity(ncol);
+                for i in 0..ncol {
+                    cells.push(match r.get_ref(i).map_err(|e| format!("{e:?}"))? {
+                        ValueRef::Null => "NULL".to_string(),
+                        ValueRef::Integer(v) => v.to_string(),
+                        ValueRef::Real(v) => v.to_string(),
+                        ValueRef::Text(t) => String::from_utf8_lossy(t).into_owned(),
+                        ValueRef::Blob(b) => String::from_utf8_lossy(b).into_owned(),
+                    });
+                }
+                table.push(cells);
+            }
+            out.push((name, table));
+        }
+        Ok(out)
     }
 }
